@@ -294,7 +294,8 @@ def run_case(case):
 def gates(obs, tier):
     calls = obs.get("calls", {})
     return {
-        "transformer_reached": calls.get("chunk_transformer", 0) > 0,
+        "transformer_reached": calls.get("get_chunk_dtype_transformer", 0) > 0
+        and obs.get("elements", 0) > 0,
         "all_type_pairs": len(obs.get("pairs", {})) == len(IN_TYPES) * len(OUT_TYPES),
         "all_layouts": all(k in obs.get("layouts", {}) for k in LAYOUTS),
         "both_reuse_modes": obs.get("preserve_true", 0) > 0 and obs.get("preserve_false", 0) > 0,
